@@ -177,10 +177,11 @@ PlantFault == /\ HasNT /\ Top.s = "STMT" /\ nfault < MaxFaults /\ nexp < MaxExp
 
 Complete == ~HasNT
 Positions == Pick(1..Len(form))
-MutKinds  == Pick({"del", "dup", "swap", "rep"} \cup (IF CharMuts THEN {"cdel", "cins", "crep"} ELSE {}))
+AllMutKinds == {"del", "dup", "swap", "rep"} \cup (IF CharMuts THEN {"cdel", "cins", "crep"} ELSE {})
+MutKinds(n) == Pick({k \in AllMutKinds : n >= 0})       \* (a parameter: TLC evaluates a constant-level definition only once)
 
 Mutate == /\ Complete /\ Len(muts) < MaxMut /\ Len(form) > 0
-          /\ \E pos \in Positions, kind \in MutKinds :
+          /\ \E pos \in Positions, kind \in MutKinds(Len(form)) :
                CASE kind = "del" ->
                       /\ form' = SubSeq(form, 1, pos - 1) \o SubSeq(form, pos + 1, Len(form))
                       /\ muts' = Append(muts, [kind |-> "del", at |-> pos, off |-> 0, ch |-> 0])
